@@ -138,6 +138,16 @@ def oracle(sp: dict, t: dict) -> list[str]:
             stuck = started - ended - {w['trace']}
             if stuck:
                 msgs.append(f'while the prompt of trace {w["trace"]} was left unanswered, threads with traces {sorted(stuck)} did not finish')
+            # when nothing moves any more, every other trace is between trace calls (its thread is blocked in the script's own code, e.g. in
+            # join()) or has ended — not inside a trace call that never got as far as its prompt
+            last: dict = {}
+            for e in before:
+                if e.get('trace_no') is not None and e['_type'] != 'OnWriteStdout':
+                    last[e['trace_no']] = e['_type']
+            inside = sorted(tn for tn, ty in last.items() if tn != w['trace'] and ty in ('OnStartTraceCall', 'OnStartCmdloop'))
+            if inside:
+                msgs.append(f'while the prompt of trace {w["trace"]} was left unanswered, traces {inside} got stuck inside a trace call before '
+                            f'any prompt was issued for them')
     return msgs
 
 
@@ -151,9 +161,13 @@ def run(chk: common.Check) -> None:
                         'a prompt blocks its own thread, hence every task of that thread\'s event loop: the non-blocking claim is about other threads']
     n2 = 60 if chk.tier == 'quick' else 600
     specs = [s for s in _trace.gen_specs(chk, 0, n2, with_modules=False)]
+    nwith = 0
     for i, s in enumerate(specs):
         if i % 3 == 1 and s['trace_threads']:
             s['policy'] = {'kind': 'withhold', 'command': 'next'}
+            nwith += 1
+            if nwith % 2 == 0:
+                s['trace_modules'] = True        # the non-blocking claim does not depend on the module filter in use
     specs += _trace.stress_specs(chk, 8 if chk.tier == 'quick' else 60)
     results = _trace.run_specs(specs)
     lines: list[str] = []
